@@ -106,6 +106,69 @@ def classify_operand(a, state, ff, optypes, depth=0):
     return 'OTHER'
 
 
+def _result_source(value):
+    """(call, index) if the stored value is (a field of) the index-th result of an operation call."""
+    seen, todo = set(), [value]
+    found = None
+    while todo:
+        v = todo.pop()
+        if v is None or id(v) in seen:
+            continue
+        seen.add(id(v))
+        if isinstance(v, Ref):
+            todo.append(v.value)
+        elif isinstance(v, Phi):
+            todo.extend(v.options)
+        elif isinstance(v, ast.IfExp):
+            todo.extend([v.body, v.orelse])
+        elif isinstance(v, ast.Attribute):
+            todo.append(v.value)
+        elif isinstance(v, Elt):
+            c = strip_refs(v.value)
+            if isinstance(c, ast.Call) and _is_operation(c.orig if hasattr(c, 'orig') else c):
+                if found is not None and (found[0] is not c or found[1] != v.index):
+                    if call_name(found[0])[1] == call_name(c)[1] and found[1] == v.index:
+                        continue        # the same result position of the Container / Plate variant of one operation
+                    return None
+                found = (c, v.index)
+    return found
+
+
+def _origin_key(operand, state, ff):
+    """The key K of the read `self.results[K]` an operand of an operation was resolved from (directly, or through a
+    slice copy whose .plate was re-pointed to self.results[K])."""
+    keys = []
+    seen, todo = set(), [operand]
+    while todo:
+        v = todo.pop()
+        if v is None or id(v) in seen:
+            continue
+        seen.add(id(v))
+        if isinstance(v, Ref):
+            if isinstance(v.value, ast.Call) and getattr(v.value.func, 'id', '') == 'deepcopy':
+                for st in ff.stores:
+                    if st[2] == f"{v.name}.plate" and dominates(v.stmt, st[0]):
+                        todo.append(st[3])
+                continue
+            if v.name.startswith('self.results['):
+                # value stored earlier in this step under that key
+                for st in ff.stores:
+                    if st[0] is v.stmt and st[2] == v.name:
+                        keys.append(st[5].slice)
+                continue
+            todo.append(v.value)
+        elif isinstance(v, Phi):
+            todo.extend(v.options)
+        elif isinstance(v, ast.Subscript) and path_from_param(v.value) == ('self', ['results']):
+            keys.append(v.slice)
+        elif isinstance(v, ast.Attribute):
+            todo.append(v.value)
+    if not keys:
+        return None
+    first = keys[0]
+    return first if all(same_value(strip_refs(k), strip_refs(first)) for k in keys) else None
+
+
 def _is_value_type_test(test, name):
     return isinstance(test, ast.Call) and getattr(test.func, 'id', '') == 'isinstance' and len(test.args) == 2 and \
         isinstance(test.args[0], ast.Name) and test.args[0].id == name and \
@@ -179,6 +242,30 @@ def run(ctx):
                    fact=('key derives from the step record' if ok and not from_operand else 'key derives from an operand that the step-adding method checked as declared' if ok else 'key derives from an operand of the step'),
                    why='the result is stored under a name that was never checked as declared: an undeclared object '
                        'silently enters the results', key=f"result key from operand in {op}")
+    # each result goes back under the name its operand was read from
+    for op, (body, node) in sorted(branches.items()):
+        stores = [s for s in ff.stores if s[2] and s[2].startswith('self.results[') and _inside(s[0], node)]
+        for stmt, target, key, value, before, rt in stores:
+            src = _result_source(value)
+            if src is None:
+                continue
+            call, idx = src
+            raw = call.orig if hasattr(call, 'orig') else call
+            args = list(call.args)
+            if isinstance(call.func, ast.Attribute) and not (isinstance(raw.func.value, ast.Name) and raw.func.value.id in model.classes):
+                args = [args[0], call.func.value] + args[1:] if call.func.attr in ('_transfer', '_transfer_slice') else args
+            if not isinstance(idx, int) or idx >= len(args) or call_name(call)[1] not in ('transfer', 'create_solution_from'):
+                continue
+            if call_name(call)[1] == 'create_solution_from' and idx > 0:
+                continue            # the last result is the created container, stored under the step's destination
+            okey = _origin_key(args[idx], before, ff)
+            ok = okey is not None and same_value(strip_refs(okey), strip_refs(rt.slice))
+            ctx.ob('C08.R2', bake, stmt.lineno, f"`{op}` branch: result {idx} of `{call_name(call)[1]}` goes back under the name "
+                                                f"operand {idx} was read from", ok,
+                   fact=f"stored under `{show(rt.slice, 20)}`, operand read from `{show(okey, 20) if okey is not None else '?'}`",
+                   why='the updated object is stored under another name: one declared object is lost, another overwritten',
+                   key=f"write-back name mismatch in {op}")
+
     # ---------------------------------------------------------------- R3 no effect before bake
     eff = receiver_effects(model)
     for op, (anns, ctor, fi) in sorted(optypes.items()):
